@@ -62,6 +62,8 @@ func usesBodies(T string) [][]*ir.S {
 		{leafD, ir.N("anydata", "gad")},
 		{ir.Cont("gn", ir.Uses("g2"), ir.Leaf("own", T))},
 		{ll3, ir.Leaf("after", T)},
+		// directory nodes without children (their child map is empty, not absent)
+		{ir.Cont("ge"), ir.Leaf("gl2", T), ir.N("choice", "gce", ir.N("case", "emptycase"), ir.Leaf("gcs", T))},
 		// choices nested below shorthand members of other choices
 		{ir.N("choice", "och", ir.Cont("oc", ir.N("choice", "ich", ir.Leaf("il", T), ir.N("case", "ick", ir.Leaf("ikl", "string")))), ir.N("list", "ol", ir.N("choice", "lch", ir.Leaf("ll2", T))))},
 	}
@@ -70,11 +72,23 @@ func usesBodies(T string) [][]*ir.S {
 // USES enumerates grouping definition sites x bodies x pairs of using sites x the type used inside.
 func USES(tier string, f func(Case)) {
 	types := []string{"string", "t"} // t is int8 in a, int16 in b, int32 inside a container of a
+	if tier == "thorough" {
+		types = append(types, "OWN:t") // spelled with the defining module's own prefix: binds like the bare name
+	}
 	defSites := []string{"a-top", "a-container", "as-top", "b-top"}
 	sites := usesSites()
 	for _, T := range types {
-		for bi, body := range usesBodies(T) {
+		for bi, body0 := range usesBodies(T) {
 			for _, ds := range defSites {
+				body := body0
+				if strings.HasPrefix(T, "OWN:") {
+					// the grouping is written in a (or its submodule) or in b: use that module's prefix
+					pfx := "a"
+					if ds == "b-top" {
+						pfx = "b"
+					}
+					body = usesBodies(pfx + ":t")[bi]
+				}
 				for si, s1 := range sites {
 					for sj, s2 := range sites {
 						if sj < si {
@@ -97,8 +111,15 @@ func USES(tier string, f func(Case)) {
 							kids = append(kids, k.Clone())
 						}
 						g := ir.Group("g", kids...)
-						g2 := ir.Group("g2", ir.Leaf("g2l", T), ir.Uses("g3"))
-						g3 := ir.Group("g3", ir.Leaf("g3l", T))
+						Tn := T
+						if strings.HasPrefix(T, "OWN:") {
+							Tn = "a:t"
+							if ds == "b-top" {
+								Tn = "b:t"
+							}
+						}
+						g2 := ir.Group("g2", ir.Leaf("g2l", Tn), ir.Uses("g3"))
+						g3 := ir.Group("g3", ir.Leaf("g3l", Tn))
 						name := map[string]string{}
 						flags := map[string]bool{}
 						switch ds {
@@ -137,7 +158,7 @@ func USES(tier string, f func(Case)) {
 								used = append(used, [2]string{s2.mod, s2.node})
 							}
 						}
-						if T == "t" && ds == "as-top" {
+						if T != "string" && ds == "as-top" {
 							flags["submodule-uses-owner-definition"] = true // type t of the owner referenced from the submodule
 						}
 						w := ir.NewWorld(a, as, b)
@@ -162,10 +183,10 @@ func augBase() (a, as *ir.Mod) {
 	a = &ir.Mod{Name: "a", Includes: []string{"as"}}
 	as = &ir.Mod{Name: "as", Owner: "a"}
 	a.Body = []*ir.S{
-		ir.Group("ga", ir.Leaf("gal", "string"), ir.Cont("gac", ir.Leaf("deep", "string"))),
+		ir.Group("ga", ir.Leaf("gal", "string"), ir.Cont("gac", ir.Leaf("deep", "string")), ir.Cont("gempty")),
 		ir.Cont("top", ir.Cont("c", ir.Leaf("l", "string")), ir.N("list", "li", ir.Leaf("v", "string")),
 			ir.N("choice", "ch", ir.N("case", "ka", ir.Leaf("kk", "string")), ir.Leaf("s", "string")),
-			ir.Leaf("tl", "string"), &ir.S{Kind: "leaf-list", Name: "tll", Type: "string"}, ir.Cont("u", ir.Uses("ga"))),
+			ir.Leaf("tl", "string"), &ir.S{Kind: "leaf-list", Name: "tll", Type: "string"}, ir.Cont("u", ir.Uses("ga")), ir.Cont("u2", ir.Uses("ga")), ir.Cont("empty")),
 		ir.N("rpc", "r"),
 		ir.N("rpc", "r2", ir.N("input", "", ir.Leaf("i", "string"))),
 		ir.N("notification", "n", ir.Leaf("nl", "string")),
@@ -175,7 +196,7 @@ func augBase() (a, as *ir.Mod) {
 }
 
 var AugTargets = []string{"top", "top/c", "top/li", "top/ch", "top/ch/ka", "top/tl", "top/tll", "r/input", "r/output", "r2/input", "r2/output", "n", "top/nope",
-	"top/c/e", "top/e", "top/u", "top/u/gac", "subc", "top/ch/kz", "r2/input/e", "top/c/e/h"}
+	"top/c/e", "top/e", "top/u", "top/u/gac", "subc", "top/ch/kz", "r2/input/e", "top/c/e/h", "top/u/gempty", "top/empty"}
 
 func augBody(i int) []*ir.S {
 	switch i {
